@@ -7,7 +7,8 @@ simulated processes on the simulated kernel.  The outcome tables must be identic
 Covers: W excludes W and R across processes; R shares with R; re-lock through a second
 handle inside the owning process succeeds; closing ANY handle of the owning process on
 the lock file drops its lock (POSIX); conversion R->W is refused while another process
-holds R and granted afterwards; process exit drops the lock.
+holds R and granted afterwards; process exit drops the lock; a lock file that is unlinked and
+re-created is a different lock (the lock belongs to the inode).
 """
 from __future__ import annotations
 
@@ -31,12 +32,23 @@ SCRIPT = [
     ("A", "rel", 0),
     ("B", "tryW", 0),           # conversion granted
     ("A", "tryR", 0), ("A", "tryW", 0),
+    ("B", "rel", 0),
+    ("A", "tryW", 0),
+    ("B", "unlink", 0),         # the lock FILE is removed while A holds the lock on its inode ...
+    ("B", "tryW", 2),           # ... a new handle creates a new file: a different lock, granted
+    ("A", "tryW", 3),           # A's new handle sees the new file too: held by B
+    ("B", "rel", 2),
+    ("A", "rel", 0), ("A", "rel", 3),
+    ("B", "tryW", 0),
     ("B", "exit", 0),           # dies holding the lock
     ("A", "tryW", 0), ("A", "rel", 0),
 ]
 
 
-def _do(locks, action, h, mk):
+def _do(locks, action, h, mk, lockpath=None, unlink=os.unlink):
+    if action == "unlink":
+        unlink(lockpath)
+        return None
     if h not in locks:
         locks[h] = mk()
     lk = locks[h]
@@ -72,7 +84,7 @@ def _real(lockpath):
                     wf.write("None\n")
                     wf.flush()
                     os._exit(0)
-                r = _do(locks, action, int(h), mk)
+                r = _do(locks, action, int(h), mk, lockpath)
                 wf.write(f"{r}\n")
                 wf.flush()
         finally:
@@ -86,7 +98,7 @@ def _real(lockpath):
     try:
         for proc, action, h in SCRIPT:
             if proc == "A":
-                out.append(_do(locks, action, h, mk))
+                out.append(_do(locks, action, h, mk, lockpath))
             else:
                 wf.write(f"{action} {h}\n")
                 wf.flush()
@@ -123,7 +135,7 @@ def _sim(lockpath):
                 kern.reap(pids[proc])
                 out.append(None)
                 continue
-            out.append(_do(locks[proc], action, h, mk))
+            out.append(_do(locks[proc], action, h, mk, lockpath, unlink=kern.sys_unlink))
         kern.cur_pid = 0
         if kern.counters["seam:trylock"] == 0:
             raise HarnessError("SEAM-LOST seam:trylock in lock conformance")
